@@ -1,5 +1,3 @@
-//go:build verif && c19wip
-
 package props
 
 // C19: governance tokens are conserved; locks bind and only lock/unlock changes them.
@@ -1211,17 +1209,19 @@ func TestC19(t *testing.T) {
 
 	// witnesses of the HEAD findings: decide the exclusions for this tree. A witness counts as its
 	// finding only if it fails on the clause the finding is about; any other failure is a violation.
+	fs := hx.LoadFindings()
+	regressFixed(t, c, fs, "C19")
 	for _, id := range []string{c19SelfMint, c19ResetLocks} {
 		err := runC19Trace(c19Witness[id], nil)
-		c.Count("witness:"+id, false, "witness")
 		c19Exclude[id] = false
 		var v *c19Viol
 		switch {
 		case err == nil:
+			c.Count("witness:"+id, false, "witness")
 		case errors.As(err, &v) && v.kind == c19WitnessKind[id]:
-			t.Logf("HEAD-FAILURE: %s: %s", id, v.msg)
-			c.Label("head-failure:" + id)
-			c19Exclude[id] = !c19ForcedOff(id)
+			if witnessVerdict(t, c, fs, id, err, c19Witness[id]) {
+				c19Exclude[id] = !c19ForcedOff(id)
+			}
 		case errors.As(err, &v):
 			c.Violate("witness-"+id, v.msg, c19Witness[id])
 			t.Errorf("witness sequence of %s violates another clause: %s", id, v.msg)
